@@ -10,7 +10,8 @@
      - the caller's Atoms object is untouched (deep comparison before/after);
      - equal (structure, parameters, seed) give equal output (runs repeated);
      - no exception other than the front end's ValueError escapes (unmodelled numpy/ASE/finder code);
-     - D really is "minimum-image distance minus radii" (C10/C19; connectivity is recomputed
+     - that the matrix handed to the pipeline is the minimum-image table of C10 minus the radii of C19 (the
+       composition itself IS a theorem: C01_out_connected_true_minimum_image below; connectivity is also recomputed
        independently from ASE's minimum-image distances on every returned cluster).
    Notes (outside the property's parameter domain, not violations):
      - max_cell_size <= 0 makes search_mask[seed] false: F0 fails and the driver loop never ends;
@@ -144,3 +145,43 @@ Example C01_hypotheses_satisfiable :
   exists out, sbc canon ex_n ex_Z ex_finder ex_choose (3 # 4) ex_near ex_bond = Ok out /\ length out = 2.
 Proof. exact ex_nonvacuous. Qed.
 Print Assumptions C01_hypotheses_satisfiable.
+
+From MV Require Import Base.ZV3 Geometry.Extend Sbc.BondFromTable Sbc.PipelineBond.
+(* C01 o C10: run with the bonding relation read off the minimum-image table of the wrapped structure (grid integers;
+   radii and threshold rationals in grid units), every output cluster is connected by pairs that satisfy the property's
+   own criterion -- SOME periodic image of the partner lies within thr + r_i + r_j (minimum-image distance minus radii
+   <= threshold) -- and, within the range where an unbounded-cutoff table is exact (C10), the table relation IS that
+   criterion. *)
+Theorem C01_out_connected_true_minimum_image :
+  forall setlist, setlist_ok setlist ->
+  forall (p : Q) (a b c : v3) (pbc : pbc3) (pos : list v3) (rad : nat -> Q) (thr : Q)
+         (Znum : nat -> Z) finder choose (merge_threshold : Q) (near : nat -> nat -> bool) out cl u v,
+    (0 < p)%Q -> vol a b c <> 0%Z -> (forall r, In r pos -> in_cell a b c pbc r) ->
+    F0 (length pos) finder -> choose_ok choose ->
+    sbc setlist (length pos) Znum finder choose merge_threshold near (bond p a b c pbc pos rad thr) = Ok out ->
+    In cl out -> In u (cidx cl) -> In v (cidx cl) ->
+    Graph.reach (bond p a b c pbc pos rad thr) (cidx cl) u v /\
+    (forall x y, bond p a b c pbc pos rad thr x y = true ->
+       (x < length pos)%nat /\ (y < length pos)%nat /\ true_bonded a b c pbc pos rad thr x y).
+Proof. exact sbc_connected_true_minimum_image. Qed.
+Print Assumptions C01_out_connected_true_minimum_image.
+
+Theorem C01_table_relation_is_the_criterion :
+  forall (p : Q) (a b c : v3) (pbc : pbc3) (pos : list v3) (rad : nat -> Q) (thr : Q),
+    (0 < p)%Q -> vol a b c <> 0%Z -> (forall r, In r pos -> in_cell a b c pbc r) ->
+    forall i j, (i < length pos)%nat -> (j < length pos)%nat -> in_exact_range a b c pbc rad thr i j ->
+      (table_bond p a b c pbc pos rad thr i j = true <-> true_bonded a b c pbc pos rad thr i j).
+Proof. exact table_bond_iff. Qed.
+Print Assumptions C01_table_relation_is_the_criterion.
+
+Example C01_table_relation_example :
+  let a := mk3 8 0 0 in let b := mk3 3 6 0 in let c := mk3 0 0 10 in
+  let pbc := mkP true true false in
+  let pos := [mk3 1 1 1; mk3 9 5 2; mk3 7 1 8] in
+  let rad := fun _ : nat => 1%Q in
+  vol a b c <> 0%Z /\
+  bond (1 # 10000) a b c pbc pos rad 2 1 0 = true /\
+  bond (1 # 10000) a b c pbc pos rad 2 2 0 = false /\
+  in_exact_range a b c pbc rad 2 1 0.
+Proof. exact table_bond_example. Qed.
+Print Assumptions C01_table_relation_example.
